@@ -36,6 +36,9 @@ impl Compiler {
         }
 
         self.builder.free_register(undefined_reg);
+
+        // Function declarations of this scope exist from its first statement on
+        self.emit_hoisted_functions(statements)?;
         Ok(())
     }
 
